@@ -44,6 +44,8 @@ var canCovers = map[string][]string{
 var accessorNeeds = map[string]string{
 	"Float": "CanFloat", "Int": "CanInt", "Uint": "CanUint", "Bool": "Kind==Bool", "IsNil": "nillable", "Len": "Kind==sized", "Elem": "Kind==Interface|Pointer",
 	"Complex": "CanComplex", "Bytes": "Kind==Slice", "MapKeys": "Kind==Map", "NumField": "Kind==Struct", "Field": "Kind==Struct",
+	// Type panics on the zero Value, which is what reflect.ValueOf(nil) returns
+	"Type": "IsValid",
 }
 
 func reflectKindName(info *types.Info, e ast.Expr) string {
